@@ -60,6 +60,8 @@ def entry_state(ex: Exec, c: Contract, fnnode) -> State:
     for f in heap_closed(h0) + list_axioms(h0):
         st.assume(f)
     pre = CCtx(h0, h0, ex.args, ex.ghosts)
+    for f in c.defs(pre):
+        st.assume(f)
     for (nm, f) in c.requires(pre):
         st.assume(f)
     return st
